@@ -249,6 +249,7 @@ def check_step(ix, rep, mon, rule='R-STEP'):
     slotp = mon.kind
     check_every_path_steps(ix, rep, uv, slotp, rule)
     check_no_swallow(ix, rep, mon, rule)
+    check_update_every_path(ix, rep, mon, rule)
     # each of visitBinary/visitUnary steps its operator exactly once
     for meth, (key, f, n) in sorted(keys.items()):
         rep.analysed(f)
@@ -345,6 +346,36 @@ def check_no_swallow(ix, rep, mon, rule='R-STEP'):
             else:
                 rep.ok(rule, f.module.rel, f.qual, slot, 'exceptions raised by the traversal leave %s()' % meth, t.lineno)
     return n
+
+
+def check_update_every_path(ix, rep, mon, rule='R-STEP'):
+    """every update() steps the operators: each normal exit of the interpreter's update() is dominated by the traversal (`updateVisitor.visitAst`).
+    A shortcut that answers without it (a repeated time-stamp taken for a re-delivered sample, an empty batch) leaves every stateful operator one
+    sample behind for ever -- the i-th update no longer is the value at sample i."""
+    f = ix.resolve_method(mon.cls, 'update')
+    if f is None:
+        return 0
+    from sa import flow
+    cfg = flow.CFG(f.node)
+    dom = cfg.dominators()
+    trav = [n for n in cfg.nodes() if cfg.stmt[n] is not None and not isinstance(cfg.stmt[n], (ast.If, ast.For, ast.While, ast.Try))
+            and any(isinstance(c, ast.Call) and isinstance(c.func, ast.Attribute) and c.func.attr == 'visitAst' for c in ast.walk(cfg.stmt[n]))]
+    rep.analysed(f)
+    slot = '%s:update:every-path' % mon.kind
+    if not trav:
+        rep.fail(rule, f.module.rel, f.qual, slot, 'update() does not run the update visitor over the ast', f.node.lineno)
+        return 1
+    bad = None
+    reach = cfg.reachable()
+    for p in cfg.pred[cfg.exit]:
+        if p in reach and not any(t in dom[p] or t == p for t in trav):
+            bad = cfg.stmt[p] if cfg.stmt[p] is not None else f.node
+    if bad is not None:
+        rep.fail(rule, f.module.rel, f.qual, slot, 'update() can return (`%s`) without having run the update visitor: the operators are not stepped for that call, and every later '
+                 'result is one sample behind' % ast.unparse(bad).split('\n')[0][:60], getattr(bad, 'lineno', f.node.lineno))
+    else:
+        rep.ok(rule, f.module.rel, f.qual, slot, 'every normal exit of update() is dominated by the traversal', f.node.lineno)
+    return 1
 
 
 def check_nested_steps(ix, rep, opclasses, label, rule='R-STEP'):
